@@ -57,7 +57,11 @@ def positions(files, rng, per_file=40):
                 ps.append((f, ln, m.start()))
         if len(ps) > per_file:
             ps = rng.sample(ps, per_file)
-        out += sorted(ps)
+        # member access: the position right after `%` (completion without prefix lists the whole type layout)
+        mem = [(f, ln, m.end(), "member") for ln, line in enumerate(t.split("\n")) for m in re.finditer(r"%", line.split("!")[0])]
+        if len(mem) > per_file // 2:
+            mem = rng.sample(mem, per_file // 2)
+        out += sorted(ps) + sorted(mem)
     return out
 
 
@@ -76,7 +80,16 @@ def run(client, root, files, pos):
         out[("diagnostics", f)] = freeze(sorted(freeze(norm(x, root)) for x in d)) if d is not None else None
     k, r = client.request("workspace/symbol", {"query": ""})
     out[("wsymbol", "")] = freeze(sorted(freeze(norm(s, root)) for s in r)) if k == "resp" and isinstance(r, list) else (k, str(r)[:80])
-    for (f, ln, col) in pos:
+    for entry in pos:
+        f, ln, col = entry[:3]
+        if len(entry) > 3:
+            k, r = client.request("textDocument/completion", {"textDocument": {"uri": client.uri(f)}, "position": {"line": ln, "character": col}})
+            if k == "resp":
+                items = r if isinstance(r, list) else (r or {}).get("items", []) if isinstance(r, dict) else []
+                out[("members", f, ln, col)] = freeze(sorted((str(i.get("label")), str(i.get("kind"))) for i in items))
+            else:
+                out[("members", f, ln, col)] = ("ERR", str(r)[:60])
+            continue
         p = {"textDocument": {"uri": client.uri(f)}, "position": {"line": ln, "character": col}}
         k, r = client.request("textDocument/definition", p)
         out[("definition", f, ln, col)] = freeze(norm(r, root)) if k == "resp" else ("ERR", str(r)[:60])
@@ -152,5 +165,8 @@ EXTRA_FILES = {
     "incs/incuser2.f90": "subroutine iu2()\n  implicit none\n  include 'inc_decl.f90'\n  inc_var_b = 2.0\nend subroutine iu2\n",
     "smods/smodp.f90": "module smodp\n  implicit none\n  interface\n    module subroutine sm_work(a)\n      integer, intent(inout) :: a\n    end subroutine sm_work\n    module function sm_fun(b) result(r)\n      integer, intent(in) :: b\n      integer :: r\n    end function sm_fun\n  end interface\n  integer :: sm_state\nend module smodp\n",
     "smods/smodc.f90": "submodule (smodp) smodc\n  implicit none\n  integer :: sm_local\ncontains\n  module subroutine sm_work(a)\n    integer, intent(inout) :: a\n    a = a + sm_state + sm_local\n  end subroutine sm_work\n  module function sm_fun(b) result(r)\n    integer, intent(in) :: b\n    integer :: r\n    r = b + sm_state\n  end function sm_fun\nend submodule smodc\n",
+    "ppa/pp_a.F90": "#include \"hdr_a.h\"\nmodule pp_a\n  implicit none\n#ifdef ONLY_PP_A_MACRO\n  integer :: pp_a_hdr_seen\n#else\n  integer :: pp_a_hdr_missing\n#endif\nend module pp_a\n",
+    "ppb/pp_b.F90": "module pp_b\n  implicit none\n  integer :: pp_b_var\nend module pp_b\n",
+    "ppb/hdr_a.h": "#define ONLY_PP_A_MACRO 1\n",
     "smods/smuse.f90": "program smuse\n  use smodp\n  use iu1, only: inc_var_a\n  implicit none\n  integer :: q\n  q = sm_fun(inc_var_a)\n  call sm_work(q)\n  call iu2()\nend program smuse\n",
 }
